@@ -128,6 +128,7 @@ package cmd
 //@   return [only_names_of_reference_tips_absent_from_the_compared_tree] forall k int :: {result0[k]} 0 <= k && k < len(result0) ==> !has(compmap, result0[k])
 //@   loop 1
 //@     invariant [compared_tip_names_registered_so_far] compmap != nil
+//@     step [only_the_names_of_tips_of_the_compared_tree_are_registered] (len(n.neigh) == 1 ==> has(compmap, n.name)) && (forall s string :: {has(compmap, s)} (len(n.neigh) != 1 || s != n.name) ==> has(compmap, s) == atHead(has(compmap, s)))
 //@   loop 2
 //@     invariant [only_absent_names_collected] compmap != nil && (forall k int :: {spectips[k]} 0 <= k && k < len(spectips) ==> !has(compmap, spectips[k]))
 //@     step [a_reference_tip_is_collected_exactly_when_its_name_is_absent] len(next(spectips)) == len(spectips) + ((len(n.neigh) == 1 && !has(compmap, n.name)) ? 1 : 0) && ((len(n.neigh) == 1 && !has(compmap, n.name)) ==> next(spectips)[len(spectips)] == n.name)
@@ -150,3 +151,52 @@ package cmd
 //@   call (*tree.Tree).RemoveTips [else_the_names_on_the_command_line] tipfile == "none" && comptree == nil && randomtips <= 0 ==> a2 == args
 //@   call cmd.specificTips [reference_tree_first_compared_tree_second] a0 == reftree.Tree && a1 == comptree
 //@   call cmd.randomTips [the_requested_number_of_tips_is_sampled_from_the_reference_tree] a0 == reftree.Tree && a1 == randomtips
+
+// ---------------------------------------------------------------------------
+// The collapse / resolve commands (property C07): every tree read without error is edited with the options exactly as
+// given - each value in its own position - and then written, one line per tree; the first erroneous tree stops the command
+// ---------------------------------------------------------------------------
+//@ func cmd.collapsedepthCmd.RunE
+//@   flag noframe
+//@   flag countcalls
+//@   recv treechan [message_is_a_tree_or_an_error] msg.Err == nil ==> msg.Tree != nil
+//@   call (*tree.Tree).CollapseTopoDepth [the_tree_just_read_with_the_depth_window_and_the_two_switches_each_in_its_place] a0 == t.Tree && t.Err == nil && a1 == mindepthThreshold && a2 == maxdepthThreshold && a3 == collapseDepthRoot && a4 == collapseDepthTips
+//@   call (*tree.Tree).Newick [the_tree_written_is_the_tree_just_collapsed] a0 == t.Tree && ghost(ncalls_CollapseTopoDepth) == atHead(ghost(ncalls_CollapseTopoDepth)) + 1
+//@   loop 1
+//@     step [every_tree_read_is_collapsed_once_and_written_once] ghost(ncalls_CollapseTopoDepth) == atHead(ghost(ncalls_CollapseTopoDepth)) + 1 && ghost(ncalls_WriteString) == atHead(ghost(ncalls_WriteString)) + 1
+
+//@ func cmd.collapsebrlenCmd.RunE
+//@   flag noframe
+//@   flag countcalls
+//@   recv treechan [message_is_a_tree_or_an_error] msg.Err == nil ==> msg.Tree != nil
+//@   call (*tree.Tree).CollapseShortBranches [the_tree_just_read_with_the_length_threshold_and_the_two_switches_each_in_its_place] a0 == t.Tree && t.Err == nil && a1 == shortbranchesThreshold && a2 == shortbranchesRemoveRoot && a3 == shortbranchesRemoveTips
+//@   call (*tree.Tree).Newick [the_tree_written_is_the_tree_just_collapsed] a0 == t.Tree && ghost(ncalls_CollapseShortBranches) == atHead(ghost(ncalls_CollapseShortBranches)) + 1
+//@   loop 1
+//@     step [every_tree_read_is_collapsed_once_and_written_once] ghost(ncalls_CollapseShortBranches) == atHead(ghost(ncalls_CollapseShortBranches)) + 1 && ghost(ncalls_WriteString) == atHead(ghost(ncalls_WriteString)) + 1
+
+//@ func cmd.collapsesupportCmd.RunE
+//@   flag noframe
+//@   flag countcalls
+//@   recv treechan [message_is_a_tree_or_an_error] msg.Err == nil ==> msg.Tree != nil
+//@   call (*tree.Tree).CollapseLowSupport [the_tree_just_read_with_the_support_threshold_and_the_root_switch] a0 == t.Tree && t.Err == nil && a1 == lowSupportThreshold && a2 == supportRemoveRoot
+//@   call (*tree.Tree).Newick [the_tree_written_is_the_tree_just_collapsed] a0 == t.Tree && ghost(ncalls_CollapseLowSupport) == atHead(ghost(ncalls_CollapseLowSupport)) + 1
+//@   loop 1
+//@     step [every_tree_read_is_collapsed_once_and_written_once] ghost(ncalls_CollapseLowSupport) == atHead(ghost(ncalls_CollapseLowSupport)) + 1 && ghost(ncalls_WriteString) == atHead(ghost(ncalls_WriteString)) + 1
+
+//@ func cmd.resolveCmd.RunE
+//@   flag noframe
+//@   flag countcalls
+//@   recv treechan [message_is_a_tree_or_an_error] msg.Err == nil ==> msg.Tree != nil
+//@   call (*tree.Tree).Resolve [the_tree_just_read] a0 == tr.Tree && tr.Err == nil
+//@   call (*tree.Tree).Newick [the_tree_written_is_the_tree_just_resolved] a0 == tr.Tree && ghost(ncalls_Resolve) == atHead(ghost(ncalls_Resolve)) + 1
+//@   loop 1
+//@     step [every_tree_read_is_resolved_once_and_written_once] ghost(ncalls_Resolve) == atHead(ghost(ncalls_Resolve)) + 1 && ghost(ncalls_WriteString) == atHead(ghost(ncalls_WriteString)) + 1
+
+//@ func cmd.collapsesingleCmd.RunE
+//@   flag noframe
+//@   flag countcalls
+//@   recv treechan [message_is_a_tree_or_an_error] msg.Err == nil ==> msg.Tree != nil
+//@   call (*tree.Tree).RemoveSingleNodes [the_tree_just_read] a0 == t.Tree && t.Err == nil
+//@   call (*tree.Tree).Newick [the_tree_written_is_the_tree_just_edited] a0 == t.Tree && ghost(ncalls_RemoveSingleNodes) == atHead(ghost(ncalls_RemoveSingleNodes)) + 1
+//@   loop 1
+//@     step [every_tree_read_is_edited_once_and_written_once] ghost(ncalls_RemoveSingleNodes) == atHead(ghost(ncalls_RemoveSingleNodes)) + 1 && ghost(ncalls_WriteString) == atHead(ghost(ncalls_WriteString)) + 1
